@@ -127,6 +127,9 @@ func (e *Env) postFunc(n *Node, idx int, ps PostSpec) z.PostTransform {
 			if rv := reflect.ValueOf(ptr); ps.Behaviour == "mutate" && rv.IsValid() && rv.Kind() == reflect.Pointer && !rv.IsNil() {
 				ApplyPostMutation(rv.Elem())
 			}
+			if ps.Behaviour == "error" {
+				return &PostError{n.ID, idx}
+			}
 			return nil
 		}
 		ev := Event{Kind: "post", Node: n.ID, Idx: idx, Ctx: e.ctxVals(ctx)}
